@@ -83,7 +83,59 @@ def correspondences(tier, rng):
                 else: return False
         if tie: return None
         return all(abs(float(p) - float(q)) <= 1e-6 for p, q in zip(ai, am))
-    return [Corr("rounded_at", cases, impl, enc=enc, oracle=oracle, compare=compare)]
+    out = [Corr("rounded_at", cases, impl, enc=enc, oracle=oracle, compare=compare)]
+    # ---- _locationsToRegions / _computeMasterSupports / _computeDeltaWeights on exact rationals
+    from fontTools.varLib.models import supportScalar
+    def gen_locs2():
+        k = rng.randint(1, 4)
+        axes = ["a", "b", "c", "d"][:k]
+        pool = rng.choice([[F(-1), F(-1, 2), F(1, 4), F(1, 2), F(3, 4), F(1)], [F(-1), F(1, 3), F(2, 3), F(1)], [F(1, 2), F(1)],
+                           [F(-1), F(-3, 4), F(-1, 3), F(-1, 8), F(1, 8), F(1, 5), F(2, 5), F(1, 2), F(7, 10), F(1)]])
+        locs = [{}]; tries = 0; n = rng.randint(1, 11)
+        while len(locs) < n + 1 and tries < 80:
+            tries += 1
+            items = [(a, rng.choice(pool)) for a in axes if rng.chance(65)]
+            rng.shuffle(items)                                  # dict key order differs from master to master
+            loc = dict(items)
+            if loc and loc not in locs: locs.append(loc)
+        rng.shuffle(locs)
+        ex = rng.chance(40)
+        if ex and rng.chance(50):                               # extrapolating models need not be normalised
+            sc = rng.choice([F(2), F(3, 2), F(100)])
+            locs = [{a: v * sc for a, v in l.items()} for l in locs]
+        return axes, locs, ex
+    scases = [gen_locs2() for _ in range(N(tier, 600, 8000))]
+    def vm(x): return VariationModel([dict(l) for l in x[1]], axisOrder=x[0], extrapolate=x[2])
+    def enc_s(x):
+        m = vm(x)
+        return (x[2], [[F(l.get(a, 0)) for a in x[0]] for l in m.locations])
+    def impl_sup(x):
+        m = vm(x)
+        return [[Opt(tuple(F(v) for v in s_[a]), some=True) if a in s_ else Opt(None, some=False) for a in x[0]] for s_ in m.supports]
+    def oracle_sup(x):
+        """the PROPERTY on the implementation: at master k's location the support of master k is 1 and every later support is 0
+        (together with the delta computation this is what makes the built font reproduce master k)"""
+        m = vm(x)
+        for k_, loc in enumerate(m.locations):
+            for j, sup in enumerate(m.supports):
+                if j < k_: continue
+                sc = supportScalar(loc, sup)
+                if j == k_ and sc != 1: return "support %d %r is %r at its own master %r" % (j, sup, sc, loc)
+                if j > k_ and sc != 0: return "support %d %r is %r at the earlier master %d %r" % (j, sup, sc, k_, loc)
+            # the order the theorem assumes: a later master never has a strict subset of an earlier master's axes
+            for j in range(k_ + 1, len(m.locations)):
+                if set(m.locations[j]) < set(loc): return "master order: %r before %r" % (loc, m.locations[j])
+        return None
+    out.append(Corr("supports", scases, impl_sup, enc=enc_s, oracle=oracle_sup))
+    def impl_w(x):
+        m = vm(x)
+        return [[F(w.get(j, 0)).limit_denominator(10**9) for j in range(i)] for i, w in enumerate(m.deltaWeights)]
+    def cmp_w(x, impl_ser, model_ser):
+        ty = ("list", ("list", "Q"))
+        a = decode(impl_ser, ty); b = decode(model_ser, ty)
+        return len(a) == len(b) and all(len(p) == len(q) and all(abs(float(u) - float(v)) <= 1e-9 for u, v in zip(p, q)) for p, q in zip(a, b))
+    out.append(Corr("deltaWeights", scases, impl_w, enc=enc_s, compare=cmp_w))
+    return out
 
 # ------------------------------------------------------------------ generated designspaces
 LETTERS = ["a", "b", "c", "d", "e"]
